@@ -25,10 +25,10 @@ func famRL(t *testing.T, r *hx.Rng, o *hx.Out) {
 	scriptF4(t, r, o, 0)      // remove + add between send and timeout
 	scriptF4(t, r, o, 3)      // reset between send and timeout
 	scriptRecvPending(t, r, o) // window change while a forwarded receive is pending, then its error ack
-	n := hx.N(14, 300)
+	n := hx.N(10, 250)
 	for i := 0; i < n; i++ {
 		h := newRlHist(t, r)
-		steps := 25 + r.Intn(20)
+		steps := hx.N(18, 30) + r.Intn(hx.N(14, 30))
 		// most histories start with a rate limit on the busiest paths
 		if r.Chance(3, 4) {
 			h.opAdmin(0, 0)
